@@ -39,6 +39,7 @@ func (cr *CheckRun) CheckJSON(entries []CorpusEntry) {
 			e.PostEncode = func() { tagJSON(e) }
 			cr.VerifyFunc(e, job.Em.Entry.Name, nil, func(fl *Failure) { jf.ReplayJSON(cr, job, fl) })
 		}
+		cr.CheckDefinedTypeCodecs(job)
 		if nt := cr.CheckTimeCodecs(job); nt > 0 {
 			cr.Note("%s: %d JSON methods of date-time components under the layout contract (json-time-component)", job.Em.Entry.Name, nt)
 		}
